@@ -585,6 +585,25 @@ def session(run, rng, nops, systematic=False):
                         run.case(("sys", oid, pid, ix), sample=None)
                         if w.read(oid, pid, ix, {"systematic": True}) is False:
                             return
+        # every commandable object: command, a refused command into a free slot (undefined enumeration number or a value of
+        # another datatype), an index on the present value, relinquish; each step judged like any other write
+        for oid in sorted(w.cmd):
+            dt = w.cmd[oid]["dt"]
+            try:
+                good = [S.gen_element(rng, dt, 1) for _ in range(2)]
+            except Exception:
+                continue
+            if issubclass(dt, Enumerated):
+                bad = (dt, max(enum_numbers(dt)) + rng.choice([1, 5]))
+            else:
+                other = CharacterString if not issubclass(dt, CharacterString) else Real
+                bad = (other, S.gen_element(rng, other, 1))
+            steps = [(None, dt, good[0], 8), (None, bad[0], bad[1], 10), (None, Null, (), 8), (3, dt, good[1], None),
+                     (None, dt, good[1], None), (None, bad[0], bad[1], 12), (None, Null, (), None)]
+            for index, vdt, val, prio in steps:
+                run.case(("sys-cmd", oid, index, vdt.__name__, prio), sample=None)
+                if w.write(oid, "presentValue", index, vdt, val, prio, {"systematic": True}) is False:
+                    return
         run.count("systematic_sweeps")
     for k in range(nops):
         wit = {"op": k}
